@@ -387,3 +387,22 @@ def register_forwarding(w):
 
     fwd_contract.custom = custom
     w.add_contract(fwd_contract)
+
+    # ---- bounded stand-in (never counted as proved): keyword arguments act on every trace, whatever was traced before
+    def bounded_history(world, c, out):
+        import time
+        from pyvc.run import run_witness
+        t0 = time.time()
+        for oname, wn, bound in (("reduction_keyword_arguments_act_on_every_trace_of_a_process", "C19_reduction_kwargs_history_family",
+                                  "70 + 20 exports of jnp.sum/prod/max/min/mean/any/all in one process over axis x keepdims x dtype x promote_integers x {int8,int16,uint8,float32}[2,3]; declared output type/shape compared with jax.eval_shape"),
+                                 ("jnp_prod_of_a_narrow_integer_operand_is_promoted_like_jax", "D32_prod_integer_promotion", "jnp.prod(x) for x in int8/int16/uint8 [2,3], 4 axis/keepdims forms")):
+            holds, detail = run_witness(wn, timeout=1200)
+            d = {"oid": f"jax2onnx.plugins.jax.numpy._reduction_utils:abstract_eval_via_orig_reduction#bounded:{oname}", "kind": "bounded",
+                 "status": "discharged" if holds else ("refuted" if holds is False else "unknown"), "backend": "enumerated", "time": time.time() - t0, "instances": 1, "trivial": 0,
+                 "bounded": bound, "note": f"abstract evaluation of the substitutes (state across traces) is outside the call-form contracts; the real export is run on an enumerated history; {detail}"[:500]}
+            if holds is False:
+                d.update(args={"witness": wn}, replay={"reproduced": True, "detail": detail}, formula="", model=detail)
+            out["obls"].append(d)
+        out["paths"], out["time"] = 1, time.time() - t0
+        return out
+    w.add_contract(Contract("jax2onnx.plugins.jax.numpy._reduction_utils:<bounded-history>", kind="custom", custom=bounded_history, props=["C19"], witnesses=["C19_reduction_kwargs_history_family"]))
